@@ -97,3 +97,12 @@ Definition where_render (root output : path) (relative_to_project_root : bool) :
   if relative_to_project_root then
     match relative_to root output with Some r => Some (ShRel r) | None => None end
   else Some (ShAbs output).
+
+(* lib/path.py:where, the whole answer: [out] = task.get_output_path(ctx) (None: an experiment without a selected
+   version), [ex] = Path.exists(); None = the function returns None (the command line then reports NoTaskOutputPath) *)
+Definition where_answer (ex : path -> bool) (root : path) (out : option path) (non_existent_ok relative_to_project_root : bool)
+  : option shown :=
+  match out with
+  | None => None
+  | Some o => if negb (ex o) && negb non_existent_ok then None else where_render root o relative_to_project_root
+  end.
